@@ -154,3 +154,255 @@ def stream_reset(ctx):
         else:
             ctx.violation('%s:per-stream-state-reset' % f.key, f.loc(ob), 'per-stream state (header, block counter) is not '
                           're-initialised on the success path (only %s)' % names)
+
+
+# --------------------------------------------------------------------------- GUARD-COMPARE (C04)
+
+PARSED_RECORDS = ('LZIPHeader', 'LZIPTrailer', 'StreamHeader', 'BlockHeader', 'Index', 'StreamFooter', 'IndexRecord')
+
+# (ADT, field) -> reason: parsed but deliberately not verified
+GUARD_EXCEPTIONS = {
+    ('StreamFooter', 'backward_size'): 'redundant description of the index size; the index itself is CRC-protected and parsed forward',
+    ('IndexRecord', 'unpadded_size'): 'redundant description of block sizes; block content is covered by the block check (only zero is rejected)',
+    ('IndexRecord', 'uncompressed_size'): 'redundant description of block sizes; block content is covered by the block check',
+    ('BlockHeader', 'compressed_size'): 'optional redundant size; content covered by the block check',
+    ('BlockHeader', 'uncompressed_size'): 'optional redundant size; content covered by the block check',
+    ('Index', 'records'): 'container of IndexRecord (see its fields)',
+}
+
+
+def _err_edge(f, s):
+    """Does one edge of bool switch s lead into a region that it dominates and that returns Err?"""
+    e = switch_edges(f, s)
+    if e is None:
+        return False
+    for tgt in e:
+        region = f.reach_from([tgt])
+        for b in region:
+            if not f.dominates(tgt, b):
+                continue
+            for st in f.blocks[b]['stmts']:
+                if st['k'] == 'assign' and st['lhs']['l'] == 0 and st['rv']['r'] == 'agg' and st['rv'].get('variant_name') == 'Err':
+                    return True
+    return False
+
+
+@rule('GUARD-COMPARE', ['C04'], floor=14)
+def guard_compare(ctx):
+    """Every integrity field a container parser reads decides an error: each field of the parsed
+    header/trailer records flows into a comparison with an Err edge (or is consumed to configure the
+    decoder); every stored CRC32 is compared with a computed checksum; the block check is verified."""
+    F = ctx.facts
+    found_adts = 0
+    for an in PARSED_RECORDS:
+        adt = F.adt(an)
+        if adt is None:
+            if an in ('LZIPHeader', 'LZIPTrailer') or an in ('StreamHeader', 'BlockHeader', 'Index', 'StreamFooter'):
+                ctx.anchor_missing('parsed record type ' + an)
+            continue
+        found_adts += 1
+        for fl in adt['variants'][0]['fields']:
+            name = fl['name']
+            key = '%s.%s' % (an, name)
+            compared = None
+            consumed = None
+            for f in F.fns:
+                if f.impl and f.impl.get('trait') and last_seg(f.impl['trait']) in ('Debug', 'Clone', 'PartialEq', 'Default'):
+                    continue
+                prov = None
+                # comparisons
+                for s in f.reachable:
+                    t = f.blocks[s]['term']
+                    if t['k'] != 'switch':
+                        continue
+                    prov = prov or Prov(f)
+                    cond = prov.operand(t['discr'], 0, '%d:T' % s)
+                    if any(x[0] == 'field' and x[2] == name and len(x) > 3 and x[3] == an for x in expr_walk(cond)):
+                        if cond[0] in ('bin', 'un', 'call') and _err_edge(f, s):
+                            compared = (f, s)
+                # other reads
+                for bi, b in enumerate(f.blocks):
+                    if b['cleanup']:
+                        continue
+                    for st in b['stmts']:
+                        if st['k'] != 'assign':
+                            continue
+                        rv = st['rv']
+                        for k2 in ('o', 'a', 'b', 'p'):
+                            p = rv.get(k2)
+                            if isinstance(p, dict) and ('c' in p or 'm' in p):
+                                p = op_place(p)
+                            if isinstance(p, dict) and 'p' in p:
+                                for pe in p['p']:
+                                    if isinstance(pe, dict) and pe.get('n') == name and last_seg(pe.get('o')) == an:
+                                        consumed = (f, bi)
+            if compared:
+                ctx.ok(key, compared[0].loc(compared[1]), 'compared in %s; the failing edge returns Err' % compared[0].key)
+            elif (an, name) in GUARD_EXCEPTIONS:
+                ctx.exception(key, adt['span'], 'parsed, unchecked: ' + GUARD_EXCEPTIONS[(an, name)])
+            elif consumed:
+                ctx.ok(key, consumed[0].loc(consumed[1]), 'consumed (configures the decoder) in %s' % consumed[0].key, nontrivial=False)
+            else:
+                ctx.violation(key, adt['span'], 'field %s.%s is parsed from the file but never compared or used: an integrity '
+                              'field that no longer decides an error lets altered files decode as valid' % (an, name))
+    # stored CRC32 vs computed checksum in every parse function
+    ncrc = 0
+    for f in F.fns:
+        if f.kind == 'closure' or not any(c.name in ('checksum', 'finalize') for _, _, c in f.calls()):
+            continue
+        if not (f.self_adt and last_seg(f.self_adt) in PARSED_RECORDS + ('LZIPReader', 'XZReader')):
+            continue
+        prov = Prov(f)
+        okc = None
+        for s in f.reachable:
+            t = f.blocks[s]['term']
+            if t['k'] != 'switch':
+                continue
+            cond = prov.operand(t['discr'], 0, '%d:T' % s)
+            nc = norm_cmp(cond, True) if cond[0] in ('bin', 'un') else None
+            if not nc or nc[0] not in ('Eq', 'Ne'):
+                continue
+            sides = (nc[1], nc[2])
+            comp = [x for x in sides if any(y[0] == 'call' and y[1].split('::')[-1] in ('checksum', 'finalize') for y in expr_walk(x))]
+            stored = [x for x in sides if x not in comp]
+            if comp and stored and _err_edge(f, s):
+                okc = s
+        ncrc += 1
+        key = '%s:stored-crc-compared' % f.key
+        if okc is not None:
+            ctx.ok(key, f.loc(okc), 'stored CRC compared with the computed checksum; mismatch returns Err')
+        else:
+            ctx.violation(key, f.loc(0), 'a checksum is computed here but never compared with the stored value on an edge that '
+                          'returns Err')
+    # block check verification
+    nver = 0
+    for f in methods_of(F, 'XZReader'):
+        prov = None
+        cnt = 0
+        for bi, t, c in f.calls():
+            if c.name == 'verify' and c.self_adt and last_seg(c.self_adt) == 'ChecksumCalculator' or c.is_('ChecksumCalculator::verify'):
+                nver += 1
+                cnt += 1
+                prov = prov or Prov(f)
+                key = '%s:block-check-verified%s' % (f.key, '' if cnt == 1 else '#%d' % cnt)
+                good = False
+                for s in f.reachable:
+                    tt = f.blocks[s]['term']
+                    if tt['k'] != 'switch':
+                        continue
+                    cond = prov.operand(tt['discr'], 0, '%d:T' % s)
+                    if any(x[0] == 'call' and len(x) > 3 and x[3] is t for x in expr_walk(cond)) and _err_edge(f, s):
+                        good = True
+                if good:
+                    ctx.ok(key, f.loc(bi), 'verify() result decides an Err')
+                else:
+                    ctx.violation(key, f.loc(bi), 'block check verify() result does not lead to an error')
+    if ncrc < 4:
+        ctx.violation('crc-sites', '-', 'only %d functions compare a stored CRC (expected stream header, block header, index, footer)' % ncrc)
+    if nver == 0:
+        ctx.anchor_missing('ChecksumCalculator::verify call in XZReader')
+
+
+@rule('CHECKSUM-FEED', ['C04'], floor=2)
+def checksum_feed(ctx):
+    """Every decoded byte handed to the caller was fed to the running integrity check: in the XZ and
+    LZIP readers each `Ok(n)` with n the count of the inner read is dominated by `update(&buf[..n])`
+    on the same n; the trailer/check verification result is propagated."""
+    from rules.io import is_trait_call, READ_TRAITS, value_closure
+    F = ctx.facts
+    n_inst = 0
+    for adt in ('XZReader', 'LZIPReader'):
+        fs = [f for f in methods_of(F, adt) if f.impl and last_seg(f.impl.get('trait')) == 'Read' and f.name == 'read']
+        if not fs:
+            ctx.anchor_missing('<%s as Read>::read' % adt)
+            continue
+        f = fs[0]
+        prov = Prov(f)
+        reads = [(bi, t) for bi, t, c in f.calls() if is_trait_call(c, READ_TRAITS, 'read')]
+        for rb, rt in reads:
+            if rt['dest']['p']:
+                continue
+            clo = value_closure(f, {rt['dest']['l']})
+            nl = {l for l in clo if f.local_ty(l) == 'usize'}
+            # Ok(n) hand-outs
+            for bi, b in enumerate(f.blocks):
+                if b['cleanup']:
+                    continue
+                for si, s in enumerate(b['stmts']):
+                    if s['k'] != 'assign' or s['lhs']['l'] != 0 or s['rv']['r'] != 'agg' or s['rv'].get('variant_name') != 'Ok':
+                        continue
+                    ol = op_local(s['rv']['ops'][0])
+                    pl = op_place(s['rv']['ops'][0])
+                    if ol not in nl and not (pl and pl['l'] in clo):
+                        continue
+                    n_inst += 1
+                    key = '%s:handout-is-checksummed' % f.key
+                    ups = []
+                    fields = set()
+                    for ub, ut, uc in f.calls():
+                        if uc.name != 'update':
+                            continue
+                        data = prov.operand(ut['args'][1], 0, '%d:T' % ub)
+                        okd = False
+                        for x in expr_walk(data):
+                            if x[0] == 'call' and x[1].endswith('Index::index') and len(x[2]) == 2:
+                                base, rng = x[2]
+                                while base[0] in ('ref', 'deref'):
+                                    base = base[1]
+                                end = rng[2][-1] if rng[0] == 'agg' and rng[2] else None
+                                if base[0] == 'param' and base[1] == 2 and end is not None:
+                                    e = end
+                                    while e[0] == 'cast':
+                                        e = e[2]
+                                    if (e[0] == 'local' and e[1] in nl) or any(y[0] == 'call' and len(y) > 3 and y[3] is rt for y in expr_walk(e)):
+                                        okd = True
+                        if okd:
+                            ups.append(ub)
+                            recv = prov.operand(ut['args'][0], 0, '%d:T' % ub)
+                            for y in expr_walk(recv):
+                                if y[0] == 'field':
+                                    sf = self_field_of(y)
+                                    if sf:
+                                        fields.add(sf[0])
+                    # bypass edges: the None arm of a match on the Option field that holds the calculator
+                    bypass = set()
+                    for sb in f.reachable:
+                        tt = f.blocks[sb]['term']
+                        if tt['k'] != 'switch':
+                            continue
+                        dl = op_local(tt['discr'])
+                        if dl is None:
+                            continue
+                        dd = f.whole_defs(dl)
+                        if len(dd) == 1 and dd[0][2] == 'assign' and dd[0][3]['rv']['r'] == 'discr':
+                            pe = prov.place(dd[0][3]['rv']['p'], 0, '%d:T' % sb)
+                            sf = self_field_of(pe) if pe[0] in ('field', 'deref') else None
+                            if sf and sf[0] in fields and 'Option' in dd[0][3]['rv']['p']['ty']:
+                                arms = {a[0]: a[1] for a in tt['arms']}
+                                none_t = arms.get('0', tt['otherwise'] if '1' in arms else None)
+                                if none_t is not None:
+                                    bypass.add((sb, none_t))
+                    # Ok block reachable from the read without update and without the None bypass?
+                    seen = set()
+                    stack = list(f.succs(rb))
+                    leak = False
+                    while stack:
+                        x = stack.pop()
+                        if x in seen or x in ups:
+                            continue
+                        seen.add(x)
+                        if x == bi:
+                            leak = True
+                            break
+                        for y in f.succs(x):
+                            if (x, y) in bypass:
+                                continue
+                            stack.append(y)
+                    if ups and not leak:
+                        ctx.ok(key, f.loc(bi, si), 'every path from the inner read to Ok(n) passes update(&buf[..n]) (or the '
+                               'no-calculator arm of self.%s)' % sorted(fields))
+                    else:
+                        ctx.violation(key, f.loc(bi, si), 'decoded bytes are returned to the caller without being fed to the running '
+                                      'CRC/SHA over exactly buf[..n]: corruption in them is no longer detected')
+    if n_inst == 0:
+        ctx.anchor_missing('Ok(n) hand-out in the container readers')
